@@ -248,6 +248,10 @@ class Sym:
                 if r1 and r2 and collect is not None:
                     collect.append((guard, mktry(r1[-1][1], exc, r2[-1][1])))
                     return True
+                if r1 and not r2 and collect is not None and h.body and isinstance(h.body[-1], ast.Raise) and self._terminates(s.body):
+                    # try: return A  except E: raise ...   -- the only value is A (the error path has none)
+                    collect.append((guard, r1[-1][1]))
+                    return True
                 if r2 and not r1 and collect is not None and self._terminates(h.body) and len(r2) == 1:
                     # try: X = A  except E: return B ; ...rest using X...   ==   try(rest value) except E: B
                     rest_rets = []
